@@ -18,7 +18,8 @@ RULE = ("cases = (start position, distance mode, direction, constant-speed "
         "shape (arc/arc_radius/circle/helix with equal radii, 1..8 turns quick, "
         "..64 thorough + a thin class to 600), length/resolution log-uniform "
         "in 1..500 (thorough: thin class to 1e4), radius >= 5 resolutions (half the "
-        "cases: radius >= 0.5 resolutions)) for "
+        "cases: radius >= 0.5 resolutions), optionally after another traced path "
+        "or after the same path traced at another resolution on the same builder) for "
         "the length clauses; any of the eight shapes at res and res/2 for the "
         "monotonicity clause; (resolution, unit switch sequence) for the units "
         "clause; non-trivial = length/resolution >= 10; distinct by SHA-1")
@@ -100,9 +101,11 @@ def check_lengths(case, cl):
     res = min(L / case["ratio"], r / (5.0 if case.get("wide_radius", True) else 0.5))
     # optionally another path was traced on the same builder just before
     run = geom.run_shape(case["start"], case["mode"], case["dir"], 9, d, res=res,
-                         pre=case.get("pre"))
+                         pre=case.get("pre"), rehearse=case.get("rehearse"))
     if case.get("pre"):
         cl.add("after_another_traced_path")
+    if case.get("rehearse"):
+        cl.add("same_path_traced_before_at_another_resolution")
     what = (f"{run['call'][0]}{tuple(run['call'][1])} from {run['start']} "
             f"({case['mode']}, {case['dir']}, resolution {res:.6g}, length {L:.6g})")
     if run["exc"] is not None:
@@ -225,6 +228,7 @@ def run_shard(ctx):
     run_hypothesis(ctx, st.fixed_dictionaries(dict(
         base, kind=st.just("lengths"), desc=const_shape(8 if quick else 64),
         wide_radius=st.booleans(), ratio=log_ratio(500),
+        rehearse=st.sampled_from([None, None, None, 3.7, 1.37, 7.3, 0.73]),
         pre=st.one_of(st.none(), st.none(), hist.shape_strategy(2)))), body_len, 45 if quick else 1500, sub="lengths")
 
     def body_half(case):
